@@ -1,8 +1,7 @@
 (* Test-case dispatch for model G, part 3 (construction API and DOT export: C19, C20).
-   Opcodes 60-99. *)
-From AJ Require Import Common.Util Graph.GModel Extract.Codec Extract.GCases.
+   Opcodes 60-79: C19 (GCases3a.v); 80-99: C20 (GCases3b.v). *)
+From AJ Require Import Common.Util Graph.GModel Extract.Codec Extract.GCases
+  Extract.GCases3a Extract.GCases3b.
 
 Definition run_gcase3 (op : N) : reader (list N) :=
-  match op with
-  | _ => fun _ => None
-  end.
+  if N.ltb op 80 then run_gcase3a op else run_gcase3b op.
